@@ -281,13 +281,13 @@ theorem mismatch_never_accepted_whatever_flags (net : Net) (reqId : Nat) (q : Qu
 /-- Non-vacuity: a truncated reply with a wrong id to a UDP-only upstream is not accepted (TCP is
 closed: network error; TCP sends the same: other error), a truncated matching one is, and for a
 UDP-then-TCP upstream truncation of a matching reply moves on to TCP. -/
-example : (exchange .udp 7 ⟨[97, 98, 46], 1⟩ (.msg ⟨8, [⟨[97, 98, 46], 1⟩], true, 1⟩) .netErr).1 = .netErr ∧
-    (exchange .udp 7 ⟨[97, 98, 46], 1⟩ (.msg ⟨8, [⟨[97, 98, 46], 1⟩], true, 1⟩)
-      (.msg ⟨8, [⟨[97, 98, 46], 1⟩], true, 2⟩)).1 = .other ∧
-    (exchange .udp 7 ⟨[97, 98, 46], 1⟩ (.msg ⟨7, [⟨[97, 98, 46], 1⟩], true, 1⟩) .netErr) =
-      (.ok ⟨7, [⟨[97, 98, 46], 1⟩], true, 1⟩, false) ∧
-    (exchange .any 7 ⟨[97, 98, 46], 1⟩ (.msg ⟨7, [⟨[97, 98, 46], 1⟩], true, 1⟩)
-      (.msg ⟨7, [⟨[97, 98, 46], 1⟩], false, 2⟩)) = (.ok ⟨7, [⟨[97, 98, 46], 1⟩], false, 2⟩, true) := by decide
+example : (exchange .udp 7 ⟨[97, 98, 46], 1⟩ (.msg ⟨8, [⟨[97, 98, 46], 1⟩], true, 1, 0⟩) .netErr).1 = .netErr ∧
+    (exchange .udp 7 ⟨[97, 98, 46], 1⟩ (.msg ⟨8, [⟨[97, 98, 46], 1⟩], true, 1, 0⟩)
+      (.msg ⟨8, [⟨[97, 98, 46], 1⟩], true, 2, 0⟩)).1 = .other ∧
+    (exchange .udp 7 ⟨[97, 98, 46], 1⟩ (.msg ⟨7, [⟨[97, 98, 46], 1⟩], true, 1, 0⟩) .netErr) =
+      (.ok ⟨7, [⟨[97, 98, 46], 1⟩], true, 1, 0⟩, false) ∧
+    (exchange .any 7 ⟨[97, 98, 46], 1⟩ (.msg ⟨7, [⟨[97, 98, 46], 1⟩], true, 1, 0⟩)
+      (.msg ⟨7, [⟨[97, 98, 46], 1⟩], false, 2, 0⟩)) = (.ok ⟨7, [⟨[97, 98, 46], 1⟩], false, 2, 0⟩, true) := by decide
 
 /-- **answer_is_matching_reply.** End to end with plain upstreams: if the client is answered,
 the answer is a message that the asked upstream sent on one of its transports and that matches
@@ -305,13 +305,13 @@ theorem answer_is_matching_reply (net : Net) (reqId : Nat) (q : Question) (udp t
   | eof => rw [hx] at h; simp [XRes.outcome, finish] at h
   | other => rw [hx] at h; simp [XRes.outcome, finish] at h
 
-example : validate 7 ⟨[97, 98, 46], 1⟩ ⟨7, [⟨[65, 66, 46], 1⟩], false, 3⟩ = .ok ∧
-    validate 7 ⟨[97, 98, 46], 1⟩ ⟨8, [⟨[97, 98, 46], 1⟩], false, 3⟩ = .badId ∧
-    validate 7 ⟨[97, 98, 46], 1⟩ ⟨7, [⟨[97, 99, 46], 1⟩], false, 3⟩ = .badName ∧
-    validate 7 ⟨[97, 98, 46], 1⟩ ⟨7, [⟨[97, 98, 46], 28⟩], false, 3⟩ = .badType ∧
-    validate 7 ⟨[97, 98, 46], 1⟩ ⟨7, [], false, 3⟩ = .badCount := by decide
-example : (exchange .any 7 ⟨[97, 98, 46], 1⟩ (.msg ⟨8, [⟨[97, 98, 46], 1⟩], false, 1⟩)
-    (.msg ⟨7, [⟨[97, 98, 46], 1⟩], false, 2⟩)).1 = .ok ⟨7, [⟨[97, 98, 46], 1⟩], false, 2⟩ := by decide
+example : validate 7 ⟨[97, 98, 46], 1⟩ ⟨7, [⟨[65, 66, 46], 1⟩], false, 3, 0⟩ = .ok ∧
+    validate 7 ⟨[97, 98, 46], 1⟩ ⟨8, [⟨[97, 98, 46], 1⟩], false, 3, 0⟩ = .badId ∧
+    validate 7 ⟨[97, 98, 46], 1⟩ ⟨7, [⟨[97, 99, 46], 1⟩], false, 3, 0⟩ = .badName ∧
+    validate 7 ⟨[97, 98, 46], 1⟩ ⟨7, [⟨[97, 98, 46], 28⟩], false, 3, 0⟩ = .badType ∧
+    validate 7 ⟨[97, 98, 46], 1⟩ ⟨7, [], false, 3, 0⟩ = .badCount := by decide
+example : (exchange .any 7 ⟨[97, 98, 46], 1⟩ (.msg ⟨8, [⟨[97, 98, 46], 1⟩], false, 1, 0⟩)
+    (.msg ⟨7, [⟨[97, 98, 46], 1⟩], false, 2, 0⟩)).1 = .ok ⟨7, [⟨[97, 98, 46], 1⟩], false, 2, 0⟩ := by decide
 
 /-! ## (e, byte level) the accepted reply is a function of the received bytes only -/
 
@@ -341,6 +341,286 @@ theorem residue_counterexample :
 example : (readMsgWholeBuffer (exCut ++ exReq.drop 17) 17).map (validate 7 ⟨[97, 98, 46], 1⟩) = some .ok ∧
     readMsg (exCut ++ exReq.drop 17) 17 = none := by decide
 
+/-! ## (g) all histories, starting from `NewHandler` with or without its initial health check -/
+
+/-- **backoff_respected_new.** `backoff_respected` for a handler whose `NewHandler` ran the
+initial health check (`HealthcheckInitDuration > 0`) or not. -/
+theorem backoff_respected_new (c : Cfg) (init : Option (Nat → Probe)) (ops : List Op) :
+    Mon.accepts c.backoff Mon.init (runNew c init ops).2 = true := by
+  obtain ⟨pre, h⟩ := runNew_eq_run c init ops
+  rw [h]
+  exact backoff_respected c (pre ++ ops)
+
+/-- **rotation_exact.** After every history (any initial check, queries, rounds, clock readings)
+the active list is exactly, in configuration order and without repetition, the list of configured
+main upstreams whose most recent probe — as the reference monitor read it off the event trace —
+did not fail.  In particular "no active main upstream" and "no main upstream is currently
+healthy" are the same thing, at all times. -/
+theorem rotation_exact (c : Cfg) (init : Option (Nat → Probe)) (ops : List Op) :
+    ∃ m, Mon.run c.backoff Mon.init (runNew c init ops).2 = some m ∧
+      (runNew c init ops).1.active =
+        (List.range c.nMain).filter (fun u => !lastFailedP (m.last u)) := by
+  obtain ⟨pre, h⟩ := runNew_eq_run c init ops
+  rw [h]
+  obtain ⟨m, hr, hsim, _⟩ := run_inv c (pre ++ ops) (St.init c) Mon.init (inv_init c)
+  refine ⟨m, hr, ?_⟩
+  rw [run_exact c (pre ++ ops) (St.init c) (exact_init c)]
+  unfold healthyList
+  apply List.filter_congr
+  intro u _
+  rw [hsim u]
+  unfold lastFailedP
+  split <;> simp_all
+
+/-- **fallback_iff_no_healthy_main.** Clause by clause over all histories: in the state reached,
+a query is passed to a fallback iff fallbacks are configured and either every configured main
+upstream failed its most recent probe or the main upstream asked failed with a network error; a
+main upstream that is asked is a configured one whose most recent probe did not fail. -/
+theorem fallback_iff_no_healthy_main (c : Cfg) (init : Option (Nat → Probe)) (ops : List Op)
+    (pick pickFb : Nat) (om ofb : Nat → Outcome) :
+    ∃ m, Mon.run c.backoff Mon.init (runNew c init ops).2 = some m ∧
+      let o := serve c (runNew c init ops).1 pick om pickFb ofb
+      (callsFb o.calls ≠ [] ↔ (c.nFb > 0 ∧
+        ((∀ u, u < c.nMain → lastFailedP (m.last u) = true) ∨
+          ∃ u, callsMain o.calls = [u] ∧ om u = .netErr))) ∧
+      (∀ u ∈ callsMain o.calls, u < c.nMain ∧ lastFailedP (m.last u) = false) := by
+  obtain ⟨m, hr, hact⟩ := rotation_exact c init ops
+  refine ⟨m, hr, ?_⟩
+  intro o
+  have hmem : ∀ u, u ∈ (runNew c init ops).1.active ↔ (u < c.nMain ∧ lastFailedP (m.last u) = false) := by
+    intro u; rw [hact]; simp
+  have hnone : pickActive (runNew c init ops).1 pick = none ↔
+      ∀ u, u < c.nMain → lastFailedP (m.last u) = true := by
+    rw [pickActive_none_iff]
+    constructor
+    · intro h u hu
+      cases hl : lastFailedP (m.last u) with
+      | true => rfl
+      | false =>
+        have := (hmem u).2 ⟨hu, hl⟩
+        rw [h] at this
+        simp at this
+    · intro h
+      apply List.eq_nil_iff_forall_not_mem.2
+      intro u hu
+      have := (hmem u).1 hu
+      rw [h u this.1] at this
+      simp at this
+  have key := fallback_once_then_servfail c (runNew c init ops).1 pick pickFb om ofb
+  simp only [] at key
+  constructor
+  · rw [key.2.2.1, hnone]
+    apply and_congr_right
+    intro _
+    apply or_congr_right
+    simp only [o, serve]
+    cases hp : pickActive (runNew c init ops).1 pick with
+    | none => simp; split <;> simp [callsMain]
+    | some v =>
+      by_cases hn : om v = .netErr ∧ c.nFb > 0
+      · simp [hn, callsMain]
+      · simp only [hn, if_false, callsMain]
+        simp
+  · intro u hu
+    exact (hmem u).1 (callsMain_serve c _ pick om pickFb ofb u hu)
+
+/-- **no_fallbacks_never_out_new.** Without fallbacks all main upstreams stay active whatever
+`NewHandler`'s initial health check and all later rounds find. -/
+theorem no_fallbacks_never_out_new (c : Cfg) (h : c.nFb = 0) (init : Option (Nat → Probe))
+    (ops : List Op) :
+    (runNew c init ops).1.active = List.range c.nMain ∧
+    (∀ u, (runNew c init ops).1.lastFailed u = none) := by
+  obtain ⟨pre, hp⟩ := runNew_eq_run c init ops
+  rw [hp]
+  exact ⟨(no_fallbacks_never_out c h (pre ++ ops)).1, (no_fallbacks_never_out c h (pre ++ ops)).2.1⟩
+
+example : (runNew ⟨2, 0, 5⟩ (some (fun _ => ⟨0, false, 0⟩)) []).1.active = [0, 1] := by decide
+example : (runNew ⟨2, 1, 5⟩ (some (fun u => ⟨0, u == 1, 0⟩)) []).1.active = [1] := by decide
+
+/-- **in_backoff_stays_out.** Inside the backoff window nothing the upstream would answer matters:
+a round at a clock reading less than `backoff` after the recorded failure leaves the upstream out
+of the active list and its failure stamp as it was (the window is not extended either). -/
+theorem in_backoff_stays_out (c : Cfg) (s : St) (pr : Nat → Probe) (u : Nat) (f : Int)
+    (hf : c.nFb > 0) (hu : u < c.nMain) (hl : s.lastFailed u = some f)
+    (hb : (pr u).tCheck - f < c.backoff) :
+    u ∉ (refresh c s pr).1.active ∧ (refresh c s pr).1.lastFailed u = some f := by
+  have hf' : ¬ c.nFb = 0 := by omega
+  have hcl := hcFold_closed c.backoff pr s.lastFailed c.nMain
+  have hsk : skips c.backoff pr s.lastFailed u = true := by
+    simp [skips, inBackoff, hl, hb]
+  simp only [refresh, hf', if_false, hcLoop]
+  constructor
+  · intro hm
+    have := ((hcl.2 u).1 hm).2.1
+    rw [hsk] at this
+    simp at this
+  · rw [hcl.1 u]
+    simp [hu, lfAfter, hsk, hl]
+
+example : (refresh ⟨1, 1, 5⟩ ⟨[], fun _ => some 10⟩ (fun _ => ⟨14, true, 14⟩)).1.lastFailed 0 = some 10 := by
+  decide
+
+/-- **recovered_can_be_chosen.** Under the hypotheses of `recovery` the reinstated upstream is
+itself eligible: some value of the random pick sends the query to it first. -/
+theorem recovered_can_be_chosen (c : Cfg) (s : St) (pr : Nat → Probe) (u : Nat) (hf : c.nFb > 0)
+    (hu : u < c.nMain) (hok : (pr u).ok = true)
+    (hb : ∀ f, s.lastFailed u = some f → c.backoff ≤ (pr u).tCheck - f) :
+    ∃ pick, ∀ om pickFb ofb,
+      (serve c (refresh c s pr).1 pick om pickFb ofb).calls.head? = some (.main u) := by
+  have hmem := (recovery c s pr u hf hu hok hb).1
+  obtain ⟨i, hi, hget⟩ := List.getElem_of_mem hmem
+  refine ⟨i, ?_⟩
+  intro om pickFb ofb
+  have hp : pickActive (refresh c s pr).1 i = some u := by
+    unfold pickActive
+    rw [Nat.mod_eq_of_lt hi, List.getElem?_eq_getElem hi, hget]
+  unfold serve
+  simp only [hp]
+  by_cases h : om u = .netErr ∧ c.nFb > 0 <;> simp [h]
+
+/-! ## (h) queries that arrive while a health-check round is running -/
+
+/-- **backoff_respected_interleaved.** For every history in which queries also arrive *during*
+health-check rounds (at any point of the probe loop, any number of them), the round-granular
+reference monitor accepts the trace: probes obey the backoff exactly as before, and no query is
+sent to a main upstream whose most recent probe, as of the end of the last completed round,
+failed.  (Within a round the list of the previous round is still in use; see
+`stale_use_inside_round`.) -/
+theorem backoff_respected_interleaved (c : Cfg) (ops : List IOp) :
+    Mon2.accepts c.backoff Mon2.init (runI c (St.init c) ops).2 = true := by
+  obtain ⟨m', h, _⟩ := runI_inv c ops (St.init c) Mon2.init (inv2_init c)
+  simp [Mon2.accepts, h]
+
+/-- **interleaved_round_same_result.** Concurrent queries do not influence what a round
+computes. -/
+theorem interleaved_round_same_result (c : Cfg) (s : St) (pr : Nat → Probe) (d : Nat → List QArgs) :
+    (refreshI c s pr d).1.active = (refresh c s pr).1.active ∧
+    (refreshI c s pr d).1.lastFailed = (refresh c s pr).1.lastFailed :=
+  refreshI_state c s pr d
+
+def exQ : QArgs := ⟨0, fun _ => .reply 1, 0, fun _ => .reply 2⟩
+/-- Two upstreams; in the round upstream 0 fails its probe, and while upstream 1 is being
+probed a query arrives. -/
+def exIOps : List IOp :=
+  [.refresh (fun u => ⟨10, u == 1, 10⟩) (fun u => if u = 1 then [exQ] else []), .query exQ]
+
+/-- **stale_use_inside_round.** The stronger reading "never after the probe failed" does not hold
+for the code: the query that arrives while upstream 1 is being probed is still sent to upstream 0,
+whose probe failed a moment ago in the same round (the new list is stored when the round ends;
+the next query goes to upstream 1).  The round-granular monitor accepts this trace, the
+probe-granular one rejects its flattening. -/
+theorem stale_use_inside_round :
+    (runI ⟨2, 1, 5⟩ (St.init ⟨2, 1, 5⟩) exIOps).2 =
+      [.ev (.probe 0 10 false 10), .ev (.query [.main 0] (.answered 1)), .ev (.probe 1 10 true 10),
+       .roundEnd, .ev (.query [.main 1] (.answered 1))] ∧
+    Mon.accepts 5 Mon.init [.probe 0 10 false 10, .query [.main 0] (.answered 1)] = false := by
+  constructor <;> decide
+
+/-- Non-vacuity of the round-granular monitor: after the round has ended a query to the failed
+upstream is rejected, and so is a re-probe inside the window. -/
+example : Mon2.accepts 5 Mon2.init
+    [.ev (.probe 0 10 false 10), .roundEnd, .ev (.query [.main 0] (.answered 1))] = false := by decide
+example : Mon2.accepts 5 Mon2.init
+    [.ev (.probe 0 10 false 10), .roundEnd, .ev (.probe 0 14 true 14)] = false := by decide
+example : Mon2.accepts 5 Mon2.init
+    [.ev (.probe 0 10 false 10), .roundEnd, .ev (.probe 0 15 true 15), .ev (.query [.fb 0] .servfail),
+     .roundEnd, .ev (.query [.main 0] (.answered 1))] = true := by decide
+
+/-! ## (i) when a probe counts as succeeded; the retry on a fresh connection -/
+
+/-- **probe_ok_iff.** `checkUpstream` succeeds iff `Exchange` returned a response with RCODE 0. -/
+theorem probe_ok_iff (p : PRes) : checkUpstream p = true ↔ p = .resp 0 := by
+  cases p <;> simp [checkUpstream]
+
+/-- **probe_needs_matching_noerror_reply.** With a plain upstream a probe succeeds only if the
+upstream sent, on one of the two transports, a NOERROR message that matches the probe query. -/
+theorem probe_needs_matching_noerror_reply (net : Net) (reqId : Nat) (q : Question) (udp tcp : Wire)
+    (h : checkUpstream (exchange net reqId q udp tcp).1.probe = true) :
+    ∃ m, (udp = .msg m ∨ tcp = .msg m) ∧ validate reqId q m = .ok ∧ m.rcode = 0 := by
+  cases hx : (exchange net reqId q udp tcp).1 with
+  | ok m =>
+    rw [hx] at h
+    have := exchange_accepts_only_matching net reqId q udp tcp m hx
+    exact ⟨m, this.1, this.2, by simpa [XRes.probe, checkUpstream] using h⟩
+  | netErr => rw [hx] at h; simp [XRes.probe, checkUpstream] at h
+  | eof => rw [hx] at h; simp [XRes.probe, checkUpstream] at h
+  | other => rw [hx] at h; simp [XRes.probe, checkUpstream] at h
+
+example : checkUpstream (exchange .any 7 ⟨[97, 98, 46], 1⟩
+    (.msg ⟨7, [⟨[97, 98, 46], 1⟩], false, 1, 2⟩) .netErr).1.probe = false ∧
+    checkUpstream (exchange .any 7 ⟨[97, 98, 46], 1⟩
+    (.msg ⟨7, [⟨[97, 98, 46], 1⟩], false, 1, 0⟩) .netErr).1.probe = true := by decide
+
+/-- **retry_accepts_only_matching.** With the second attempt of `exchangeNet` spelled out: a
+returned response is one of the (up to four) messages received and it matches the query; and the
+second attempt is looked at only after a connection error of the first. -/
+theorem retry_accepts_only_matching (net : Net) (reqId : Nat) (q : Question)
+    (u1 u2 t1 t2 : Wire) (m : Msg) (h : (exchangeR net reqId q u1 u2 t1 t2).1 = .ok m) :
+    (u1 = .msg m ∨ u2 = .msg m ∨ t1 = .msg m ∨ t2 = .msg m) ∧ validate reqId q m = .ok := by
+  have key : ∀ a b, retryWire a b = .msg m → a = .msg m ∨ b = .msg m := by
+    intro a b hab
+    cases a <;> simp_all [retryWire]
+  have := exchange_accepts_only_matching net reqId q _ _ m h
+  refine ⟨?_, this.2⟩
+  rcases this.1 with hu | ht
+  · rcases key _ _ hu with h1 | h1
+    · exact Or.inl h1
+    · exact Or.inr (Or.inl h1)
+  · rcases key _ _ ht with h1 | h1
+    · exact Or.inr (Or.inr (Or.inl h1))
+    · exact Or.inr (Or.inr (Or.inr h1))
+
+theorem retry_only_after_conn_error (w1 w2 : Wire) (h1 : w1 ≠ .netErr) (h2 : w1 ≠ .eof) :
+    retryWire w1 w2 = w1 := by
+  cases w1 <;> simp_all [retryWire]
+
+example : (exchangeR .tcp 7 ⟨[97, 98, 46], 1⟩ .bad .bad .eof (.msg ⟨7, [⟨[97, 98, 46], 1⟩], false, 2, 0⟩)).1 =
+    .ok ⟨7, [⟨[97, 98, 46], 1⟩], false, 2, 0⟩ := by decide
+
+/-- **accepted_reply_parsed_from_received_bytes.** From the bytes on the wire to the answer: if
+`Exchange` returns a response, then on one of the two transports at least 17 bytes were received,
+the response is what the header-and-question parser makes of exactly those bytes (nothing beyond
+them in the buffer), and it matches the query's id, name and type. -/
+theorem accepted_reply_parsed_from_received_bytes (net : Net) (reqId : Nat) (q : Question)
+    (udp tcp : Raw) (m : Msg) (h : (exchange net reqId q udp.wire tcp.wire).1 = .ok m) :
+    (∃ buf n, (udp = .bytes buf n ∨ tcp = .bytes buf n) ∧ minDNSMessageSize ≤ n ∧
+      parseMsg (buf.take n) = some m) ∧ validate reqId q m = .ok := by
+  have key : ∀ r : Raw, r.wire = .msg m →
+      ∃ buf n, r = .bytes buf n ∧ minDNSMessageSize ≤ n ∧ parseMsg (buf.take n) = some m := by
+    intro r hr
+    cases r with
+    | bytes buf n =>
+      refine ⟨buf, n, rfl, ?_⟩
+      simp only [Raw.wire] at hr
+      cases hm : readMsg buf n with
+      | none => rw [hm] at hr; simp at hr
+      | some m' =>
+        rw [hm] at hr
+        simp only [Wire.msg.injEq] at hr
+        subst hr
+        unfold readMsg at hm
+        by_cases hn : n < minDNSMessageSize
+        · simp [hn] at hm
+        · simp only [hn, if_false] at hm
+          exact ⟨by omega, hm⟩
+    | netErr => simp [Raw.wire] at hr
+    | eof => simp [Raw.wire] at hr
+  have := exchange_accepts_only_matching net reqId q _ _ m h
+  refine ⟨?_, this.2⟩
+  rcases this.1 with hu | ht
+  · obtain ⟨buf, n, h1, h2, h3⟩ := key udp hu
+    exact ⟨buf, n, Or.inl h1, h2, h3⟩
+  · obtain ⟨buf, n, h1, h2, h3⟩ := key tcp ht
+    exact ⟨buf, n, Or.inr h1, h2, h3⟩
+
+/-- A complete 20-byte reply to `ab. A` id 7 is accepted; its first 17 bytes followed by the
+request's residue are not (they were, before the fix). -/
+example : (exchange .udp 7 ⟨[97, 98, 46], 1⟩
+    (Raw.bytes [0, 7, 129, 128, 0, 1, 0, 0, 0, 0, 0, 0, 2, 97, 98, 0, 0, 1, 0, 1] 20).wire Raw.netErr.wire).1 =
+      .ok ⟨7, [⟨[97, 98, 46], 1⟩], false, 0, 0⟩ ∧
+    (exchange .udp 7 ⟨[97, 98, 46], 1⟩ (Raw.bytes (exCut ++ exReq.drop 17) 17).wire Raw.netErr.wire).1 = .netErr := by
+  decide
+
 #print axioms main_reply_used
 #print axioms fallback_once_then_servfail
 #print axioms finish_servfail_iff
@@ -354,5 +634,19 @@ example : (readMsgWholeBuffer (exCut ++ exReq.drop 17) 17).map (validate 7 ⟨[9
 #print axioms answer_is_matching_reply
 #print axioms reply_from_own_bytes
 #print axioms residue_counterexample
+#print axioms backoff_respected_new
+#print axioms rotation_exact
+#print axioms fallback_iff_no_healthy_main
+#print axioms no_fallbacks_never_out_new
+#print axioms in_backoff_stays_out
+#print axioms recovered_can_be_chosen
+#print axioms backoff_respected_interleaved
+#print axioms interleaved_round_same_result
+#print axioms stale_use_inside_round
+#print axioms probe_ok_iff
+#print axioms probe_needs_matching_noerror_reply
+#print axioms retry_accepts_only_matching
+#print axioms retry_only_after_conn_error
+#print axioms accepted_reply_parsed_from_received_bytes
 
 end Agd.Forward
